@@ -422,4 +422,11 @@ theorem enabled_of_prog {comp : Comp K V} {trim : Store K V → Store K V} {c : 
     | missed => simp only; cases comp i c.clock c.cache k <;> simp
     | computed v => simp
 
+theorem zip_filter_map {α β : Type} (g : α → β) (q : α → Bool) : ∀ l : List α,
+    ((l.zip (l.map g)).filter (fun e => q e.1)).map (·.2) = (l.filter q).map g
+  | [] => rfl
+  | a :: l => by
+    simp only [List.map_cons, List.zip_cons_cons, List.filter_cons]
+    cases q a <;> simp [zip_filter_map g q l]
+
 end Einx.Cache.Conc
